@@ -15,6 +15,7 @@ class NArr:
         self.label = label
         self.reads = None        # set of consumed positions, only for 1-D parameter samples (linspace)
         self.node = None
+        self.ragged = False      # True: only the number of rows is known (each row is an opaque vector)
         self.base = None         # the array this one is a numpy *view* of (basic indexing, reshape, transposition, rows)
         self._views = None       # weak set of the live views taken on this array
 
@@ -122,6 +123,11 @@ class NArr:
                 its = k.items if isinstance(k, NArr) else k
                 if isinstance(k, NArr) and k.ndim != 1:
                     return None
+                if its and all(isinstance(i, bool) for i in its):
+                    # boolean mask along this axis: the positions where it holds
+                    if len(its) != d:
+                        return f"boolean index did not match indexed array along axis {ax}; size of axis is {d} but size of corresponding boolean axis is {len(its)}"
+                    its = [i for i, b in enumerate(its) if b]
                 if not all(isinstance(i, int) and not isinstance(i, bool) for i in its):
                     return None
                 for i in its:
@@ -311,6 +317,8 @@ def reshape(arr, shape):
 
 
 def transpose(arr):
+    if arr.ragged:
+        return None
     if arr.ndim < 2:
         return arr
     arr.mark_all()
